@@ -134,6 +134,11 @@ def handler_mutants(behaviours, tier, seed):
         for idx, (pos, kind, frm) in enumerate(inj, start=1):
             if kind in ("PeerMessage", "PeerHandshake"):
                 out.append(b + [{"k": "Replay", "idx": idx, "from": "aA"}, {"k": "Quiesce"}])
+    # the thorough catalogue (every bit of every header / auth-data / tag region of every datagram of 25 behaviours) has ~10^5 members:
+    # a seeded sample of it is executed per run
+    cap = 600 if tier == "quick" else 12000
+    if len(out) > cap:
+        out = rng.sample(out, cap)
     return out
 
 
